@@ -118,9 +118,14 @@ def cli_replay_alias(tname, group, rejected):
         tree = {'a.txt': {'size': 5}, 'b.log': {'size': 7}}
         base = group[0]
         outs = {}
-        for w in [base] + list(rejected)[:4]:
+        words = [base] + [w for w in list(rejected)[:4] if w != base]
+        if len(words) == 1:
+            words = list(group)[:6]         # no spelling is rejected: the group's members denote different things
+        for w in words:
             if tname.startswith('Op'):
-                argv = ['name', 'from', '.', 'where', 'size', w, '5']
+                # rejected spellings: a numeric comparison; members that denote different operators: a text comparison with a
+                # wildcard (the pattern operators differ from the strict ones only on `*` / `?`)
+                argv = ['name', 'from', '.', 'where', 'size', w, '5'] if rejected else ['name', 'from', '.', 'where', 'name', w, "'b*'"]
             elif tname.startswith('Arithmetic'):
                 argv = ['size ' + w + ' 1', 'from', '.']
             elif tname.startswith('Field'):
